@@ -2,7 +2,7 @@
    and Drain::next (re-translated from /repo on every run), evaluated by the IR semantics in the machine
    world with the function-boundary semantics of EquivElem.v, in terms of the list model. *)
 From Coq Require Import ZArith List Bool Lia Permutation.
-From MV Require Import Ast Eval Scalar Machine EquivDefs Prims EquivTac EquivElem EquivPop EquivIter.
+From MV Require Import Ast Eval Scalar Machine EquivDefs Prims EquivTac EquivElem EquivPop EquivRemove EquivInsert EquivSwapRemove EquivIter.
 From MV.Gen Require Import AstGen.
 From MV.Proofs Require Import Arith Logic Prim View OpsLocal Guards Grow CapHistory Drops Retain DrainIt Sentinel Core Refine IterAt Resize.
 Import ListNotations.
@@ -66,5 +66,76 @@ Section SourceSpecs.
     rewrite (drain_next_spec cfg Hcfg s d b bl off a j r Hinv) in Hn.
     unfold lift_m. rewrite Hat.
     destruct (a <? j); inversion Hn; subst; reflexivity.
+  Qed.
+  Lemma vabs_len_ok s v l : vabs cfg s v l -> Z.of_nat (List.length l) <= ISIZE_MAX -> len_ok v s.
+  Proof. intros Hab H l' s1 Hl. rewrite (vabs_len cfg Hcfg s v l Hab) in Hl. inversion Hl; subst. lia. Qed.
+
+  (* truncate(n): the prefix; the cut elements destroyed exactly once (also when a destructor panics) *)
+  Theorem truncate_source s v l n :
+    vabs cfg s v l -> Z.of_nat (List.length l) <= ISIZE_MAX -> 0 <= n < W64 ->
+    let Q := fun s' => vabs cfg s' v (firstn (Z.to_nat n) l) /\
+                       (forall e, In e (skipn (Z.to_nat n) l) -> ledger s' e = Dropped) /\
+                       only_changes s s' (skipn (Z.to_nat n) l) in
+    match runm cfg ncap lib__MiniVec__truncate_ast [VObj v; VInt n] s with
+    | (Norm _, s') | (Panic, s') => Q s'
+    | (Fail FAbort, _) | (Fail (FAllocAbort _ _), _) => True
+    | _ => False
+    end.
+  Proof.
+    intros Hab Hlen Hn Q. subst Q. cbv beta. rewrite (truncate_equiv cfg ncap v n s (vabs_len_ok s v l Hab Hlen) Hn).
+    pose proof (truncate_abs cfg Hcfg Htracked s v l n Hab (proj1 Hn)) as H. cbv zeta in H.
+    unfold lift_m. destruct (truncate cfg v n s) as [[a| | | | |] s']; cbn [post fst snd] in *; first [exact H|exact I|contradiction].
+  Qed.
+
+  (* remove(i): the i-th element handed to the caller, the rest in order; out of range: a panic that
+     changes nothing *)
+  Theorem remove_source s v l i :
+    vabs cfg s v l -> Z.of_nat (List.length l) <= ISIZE_MAX -> 0 <= i < W64 ->
+    match returning cfg (runm cfg ncap lib__MiniVec__remove_ast [VObj v; VInt i]) s with
+    | (Norm r, s') => exists x, r = VInt x /\ nth_error l (Z.to_nat i) = Some x /\
+                                vabs cfg s' v (delete_at (Z.to_nat i) l) /\ ledger s' x = Out
+    | (Panic, s') => Z.of_nat (List.length l) <= i /\ s' = s
+    | (Fail FAbort, _) | (Fail (FAllocAbort _ _), _) => True
+    | _ => False
+    end.
+  Proof.
+    intros Hab Hlen Hi. rewrite (remove_equiv cfg ncap v i s (vabs_len_ok s v l Hab Hlen) Hi).
+    pose proof (remove_abs cfg Hcfg Htracked s v l i Hab (proj1 Hi)) as H.
+    unfold lift_m. destruct (remove cfg v i s) as [[a| | | | |] s']; simpl in *; try tauto.
+    exists a. tauto.
+  Qed.
+
+  (* swap_remove(i): the i-th element handed out, the last element in its place *)
+  Theorem swap_remove_source s v l i :
+    vabs cfg s v l -> Z.of_nat (List.length l) <= ISIZE_MAX -> 0 <= i < W64 ->
+    match returning cfg (runm cfg ncap lib__MiniVec__swap_remove_ast [VObj v; VInt i]) s with
+    | (Norm r, s') => exists x, r = VInt x /\ nth_error l (Z.to_nat i) = Some x /\
+                                vabs cfg s' v (swap_delete (Z.to_nat i) l) /\ ledger s' x = Out
+    | (Panic, s') => Z.of_nat (List.length l) <= i /\ s' = s
+    | (Fail FAbort, _) | (Fail (FAllocAbort _ _), _) => True
+    | _ => False
+    end.
+  Proof.
+    intros Hab Hlen Hi. rewrite (swap_remove_equiv cfg ncap v i s (vabs_len_ok s v l Hab Hlen) Hi).
+    pose proof (swap_remove_abs cfg Hcfg Htracked s v l i Hab (proj1 Hi)) as H.
+    unfold lift_m. destruct (swap_remove cfg v i s) as [[a| | | | |] s']; simpl in *; try tauto.
+    exists a. tauto.
+  Qed.
+
+  (* insert(i, e): the element at position i; refused (index > len, or the capacity computation): a
+     panic, the list unchanged, the argument destroyed once *)
+  Theorem insert_source s v l i e :
+    vabs cfg s v l -> Z.of_nat (List.length l) <= ISIZE_MAX -> 0 <= i < W64 ->
+    ledger s e = Live -> ~ In e l -> e < next_elem s ->
+    match param_dropped_on_unwind cfg e (runm cfg ncap lib__MiniVec__insert_ast [VObj v; VInt i; VInt e]) s with
+    | (Norm _, s') => i <= Z.of_nat (List.length l) /\ vabs cfg s' v (list_insert (Z.to_nat i) e l) /\ only_changes s s' []
+    | (Panic, s') => vabs cfg s' v l /\ ledger s' e = Dropped /\ only_changes s s' [e]
+    | (Fail FAbort, _) | (Fail (FAllocAbort _ _), _) => True
+    | _ => False
+    end.
+  Proof.
+    intros Hab Hlen Hi Hl Hn He. rewrite (insert_equiv cfg ncap v i e s (vabs_len_ok s v l Hab Hlen) Hi).
+    pose proof (insert_abs cfg ncap Hcfg Hpol Htracked s v l i e Hab Hl Hn He (proj1 Hi)) as H.
+    unfold lift_m. destruct (insert cfg ncap v i e s) as [[a| | | | |] s']; simpl in *; tauto.
   Qed.
 End SourceSpecs.
